@@ -185,17 +185,39 @@ func (v *Verifier) newExec(fn *ssa.Function, c *Contract) (*Exec, error) {
 		edges: map[*ssa.BasicBlock][]edge{}, done: map[*ssa.BasicBlock]bool{}, safeN: map[string]int{}, written: map[string]bool{},
 		callN: map[string]int{}, fvKnown: map[string]int{}, iterSV: map[*ssa.Range]string{}, entryReach: "true"}
 	if c != nil {
-		if p := c.Options["prelude"]; p != "" {
-			for _, n := range strings.Split(p, ",") {
-				t, err := v.prelude(strings.TrimSpace(n))
-				if err != nil {
-					return nil, err
-				}
-				x.smt.preludes = append(x.smt.preludes, t)
-			}
+		if err := x.usePreludes(c); err != nil {
+			return nil, err
 		}
 	}
 	return x, nil
+}
+
+// usePreludes loads the spec preludes a contract names (once each). A callee's
+// contract may name preludes its caller did not load; they are added when the
+// contract is applied (preludes are emitted before the statement stream).
+func (x *Exec) usePreludes(c *Contract) error {
+	p := c.Options["prelude"]
+	if p == "" {
+		return nil
+	}
+	r := x.root()
+	for _, n := range strings.Split(p, ",") {
+		t, err := x.V.prelude(strings.TrimSpace(n))
+		if err != nil {
+			return err
+		}
+		dup := false
+		for _, have := range r.smt.preludes {
+			if have == t {
+				dup = true
+			}
+		}
+		if !dup {
+			r.smt.preludes = append(r.smt.preludes, t)
+			r.smt.funcSorts = nil
+		}
+	}
+	return nil
 }
 
 func (v *Verifier) verifyFunc(c *Contract) *FuncReport {
@@ -350,6 +372,18 @@ func (v *Verifier) verifyFunc(c *Contract) *FuncReport {
 				o := x.obligeNoAssume("frame", "frame:"+k, "true", "unchanged at pre-existing references: "+k, fn)
 				o.Parts = parts
 			}
+		}
+	}
+	for _, cs := range c.CallSites {
+		// a call-site clause that no call matches would pass vacuously
+		hit := false
+		for _, o := range x.obligs {
+			if strings.Contains(o.Name, "#callsite:"+cs.Name+":") {
+				hit = true
+			}
+		}
+		if !hit {
+			x.specError(cs, fmt.Errorf("no call of %q is reached in this function", cs.Callee))
 		}
 	}
 	if len(x.rets) > 0 {
